@@ -24,7 +24,7 @@ RULE = (
 )
 ASSUMPTIONS = [
     "kernel packages are harness doubles; aspire's loop/resampling/accumulation code runs unmodified",
-    "tolerance for recomputed ratios: 64*eps*(max|incremental log w|+1)+N*eps absolute; variances 64*N*eps relative + 256*eps/N absolute (cancellation in Var(u) when weights are nearly equal)",
+    "tolerance for recomputed ratios: 64*eps*(max|incremental log w|+1)+N*eps absolute; variances 64*N*eps relative + 256*eps/N absolute (cancellation in Var(u) when weights are nearly equal) + 16*eps*max|incremental log w|*(v+sqrt(v/N)) (rounding of log-weight differences of magnitude up to 1e8)",
     "populations are read from history.sample_history (C18 checks that this record is faithful)",
 ]
 
@@ -77,11 +77,12 @@ def run_case(case, ctx):
         vt_ref = var_u / (n * mean_u**2)
         got_r = float(env.to_np(h.log_norm_ratio[t - 1]))
         got_v = float(env.to_np(h.log_norm_ratio_var[t - 1]))
-        tol_r = 64 * eps * (float(np.max(np.abs(fin))) + 1 if len(fin) else 1) + n * eps
+        mag = float(np.max(np.abs(fin))) if len(fin) else 0.0
+        tol_r = 64 * eps * (mag + 1) + n * eps
         if not math.isfinite(got_r) or abs(got_r - rt_ref) > tol_r:
             ctx.fail("step-ratio", f"iteration {t}: recorded log ratio {got_r!r}, recomputed from population {t - 1} and "
                                    f"(beta {prev!r}->{b!r}): {rt_ref!r}", case, iteration=t)
-        if not math.isfinite(got_v) or abs(got_v - vt_ref) > 64 * n * eps * vt_ref + 256 * eps / n + 1e-300:
+        if not math.isfinite(got_v) or abs(got_v - vt_ref) > 64 * n * eps * vt_ref + 256 * eps / n + 16 * eps * mag * (vt_ref + math.sqrt(vt_ref / n)) + 1e-300:
             ctx.fail("step-variance", f"iteration {t}: recorded variance {got_v!r}, recomputed {vt_ref!r}", case, iteration=t)
         ratios.append(got_r)
         variances.append(got_v)
